@@ -1,27 +1,69 @@
 ----------------------------- MODULE Val_C18big -----------------------------
-(* VAL for C18 on LARGE circuits: a chain of N unit resistors (nodes 0 .. N-1).      *)
-(* A unit current from s to t flows through node i exactly when s < i < t, so the      *)
-(*   vertex current-flow betweenness of node i = 2 i (N-1-i) / (N (N-1))               *)
-(*   effective resistance of (a, b) = |a - b|                                           *)
-(*   edge current-flow betweenness of the link (i, i+1) = 2 (i+1) (N-1-i) / (N (N-1))    *)
-(* (closed forms of the defining sums; the sums themselves are decided on all small      *)
-(* circuits by Val_C18).  Values scaled by 10^4 / 10^6.                                   *)
-EXTENDS Integers, Sequences, TLC, Fx, Json, IOUtils
+(* VAL for C18 on LARGE circuits of unit resistors (nodes 0 .. N-1), four families with closed forms of    *)
+(* the defining sums (end nodes of a pair carry nothing: the kernel skips i = s, i = t):                      *)
+(*   chain    : a unit current s -> t flows through node i exactly when s < i < t                             *)
+(*                VCFB(i) = 2 i (N-1-i) / (N (N-1)),  ECFB(i,i+1) = 2 (i+1) (N-1-i) / (N (N-1)),  ER = |a-b|  *)
+(*   ring     : the current splits (N-d)/N : d/N over the two arcs between nodes at distance d                *)
+(*                VCFB = (N-2) / (3N) for every node,  ECFB = (N+1) / (3N) for every link,  ER = d (N-d) / N  *)
+(*   star     : hub 0; every leaf-leaf current passes the hub                                                 *)
+(*                VCFB(hub) = (N-2)/N, VCFB(leaf) = 0,  ECFB(hub,leaf) = 2/N,  ER = 1 (hub-leaf), 2 (leaves)   *)
+(*   complete : 2/N over the direct link, 1/N over each of the N-2 two-step paths                             *)
+(*                VCFB = (N-2) / N^2,  ECFB = 4 / N^2,  ER = 2/N                                               *)
+(* The closed forms are PROVED here against the definitions of Defs_Resistive (determinant form of the        *)
+(* effective resistance, defining sums of the betweenness) on every member of up to 6 nodes (beyond, the determinants leave 32 bits); the sums           *)
+(* themselves are decided on all small circuits by Val_C18.  Values scaled by 10^6.                             *)
+EXTENDS Defs_Resistive, TLC, Json, IOUtils
 Trace == ndJsonDeserialize(IOEnv.TRACE_FILE)
 VARIABLE i
-Tol4 == 25
-Vcfb4(N, k) == FxDiv(2 * k * (N - 1 - k), N * (N - 1), 10000)
-Ecfb4(N, k) == FxDiv(2 * (k + 1) * (N - 1 - k), N * (N - 1), 10000)
+RingDist(N, a, b) == Min2(Abs(a - b), N - Abs(a - b))
+Linked(kind, N, a, b) ==                      \* nodes 0 .. N-1
+  a # b /\ CASE kind = "chain" -> Abs(a - b) = 1
+             [] kind = "ring" -> RingDist(N, a, b) = 1
+             [] kind = "star" -> a = 0 \/ b = 0
+             [] OTHER -> TRUE
+VcfbC(kind, N, k) ==
+  CASE kind = "chain" -> FxDiv(2 * k * (N - 1 - k), N * (N - 1), S)
+    [] kind = "ring" -> FxDiv(N - 2, 3 * N, S)
+    [] kind = "star" -> IF k = 0 THEN FxDiv(N - 2, N, S) ELSE 0
+    [] OTHER -> FxDiv(N - 2, N * N, S)
+EcfbC(kind, N, a, b) ==                        \* for a linked pair
+  CASE kind = "chain" -> FxDiv(2 * (Min2(a, b) + 1) * (N - 1 - Min2(a, b)), N * (N - 1), S)
+    [] kind = "ring" -> FxDiv(N + 1, 3 * N, S)
+    [] kind = "star" -> FxDiv(2, N, S)
+    [] OTHER -> FxDiv(4, N * N, S)
+ErC(kind, N, a, b) ==
+  IF a = b THEN 0 ELSE
+  CASE kind = "chain" -> S * Abs(a - b)
+    [] kind = "ring" -> FxDiv(RingDist(N, a, b) * (N - RingDist(N, a, b)), N, S)
+    [] kind = "star" -> IF a = 0 \/ b = 0 THEN S ELSE 2 * S
+    [] OTHER -> FxDiv(2, N, S)
+\* ---- the closed forms against the definitions (small members) ------------------------------------------
+RMat(kind, N) == [a \in 1..N |-> [b \in 1..N |-> IF Linked(kind, N, a - 1, b - 1) THEN 1 ELSE 0]]
+Proved(kind, N) ==
+  LET r == RMat(kind, N)
+      e6 == [a \in 1..N |-> [b \in 1..N |-> EffRes6(r, a, b)]]
+      e4 == [a \in 1..N |-> [b \in 1..N |-> RDiv(e6[a][b], 100)]]
+  IN /\ \A a \in 1..N : \A b \in 1..N : Abs(e6[a][b] - ErC(kind, N, a - 1, b - 1)) <= 2
+     /\ \A a \in 1..N : Abs(100 * Vcfb4(r, e4, a) - VcfbC(kind, N, a - 1)) <= 120
+     /\ \A a \in 1..N : \A b \in 1..N : r[a][b] = 1 =>
+          Abs(100 * Ecfb4(r, e4, a, b) - EcfbC(kind, N, a - 1, b - 1)) <= 120
+\* ---- recorded values: relative tolerance 0.5 % (single-precision kernels), absolute 20 x 10^-6 -----------
+Near(x, v) == IsNum(x) /\ Abs(x - v) <= Max2(20, v \div 200)
+Kind(e) == IF "kind" \in DOMAIN e THEN e.kind ELSE "chain"
 Fails(e) ==
-  LET N == e.N  o == e.obs IN
-  (IF \E k \in 0..(N - 1) : ~Close(o.vcfb[k + 1], Vcfb4(N, k), Tol4) THEN {"SumDef|vertex_current_flow_betweenness(chain)"} ELSE {})
-  \cup (IF \E k \in 0..(N - 2) : ~Close(o.ecfb_chain[k + 1], Ecfb4(N, k), Tol4) THEN {"SumDef|edge_current_flow_betweenness(chain)"} ELSE {})
-  \cup (IF \E k \in 1..Len(o.er_pairs) : ~Close(o.er[k], 1000000 * Abs(o.er_pairs[k][1] - o.er_pairs[k][2]),
-                                                Max2(200, 10 * Abs(o.er_pairs[k][1] - o.er_pairs[k][2])))
-        THEN {"ERDef|effective_resistance(chain)"} ELSE {})
-Verdict(e) == IF e.obs.exc # "" THEN <<"REJECT", "Applicable", e.obs.exc, "chain,N" \o ToString(e.N)>>
-              ELSE LET f == Fails(e) IN IF f = {} THEN <<"ACCEPT", "", "", "chain,N" \o ToString(e.N)>>
-                                        ELSE <<"REJECT", "Multi", JoinSet(f), "chain,N" \o ToString(e.N)>>
+  LET N == e.N  o == e.obs  kd == Kind(e)  nm == "(" \o kd \o ")" IN
+  (IF N <= 6 /\ ~Proved(kd, N) THEN {"GenExact|closed forms of the family " \o kd} ELSE {})
+  \cup (IF \E k \in 0..(N - 1) : ~Near(o.vcfb[k + 1], VcfbC(kd, N, k))
+        THEN {"SumDef|vertex_current_flow_betweenness" \o nm} ELSE {})
+  \cup (IF \E k \in 1..Len(o.links) : ~Near(o.ecfb_links[k], EcfbC(kd, N, o.links[k][1], o.links[k][2]))
+        THEN {"SumDef|edge_current_flow_betweenness" \o nm} ELSE {})
+  \cup (IF o.ecfb_unlinked_max > 20 THEN {"SumDef|edge_current_flow_betweenness" \o nm \o " of unlinked pairs"} ELSE {})
+  \cup (IF \E k \in 1..Len(o.er_pairs) : ~Near(o.er[k], ErC(kd, N, o.er_pairs[k][1], o.er_pairs[k][2]))
+        THEN {"ERDef|effective_resistance" \o nm} ELSE {})
+Tags(e) == Kind(e) \o ",N" \o ToString(e.N)
+Verdict(e) == IF e.obs.exc # "" THEN <<"REJECT", "Applicable", e.obs.exc, Tags(e)>>
+              ELSE LET f == Fails(e) IN IF f = {} THEN <<"ACCEPT", "", "", Tags(e)>>
+                                        ELSE <<"REJECT", "Multi", JoinSet(f), Tags(e)>>
 Init == i = 1
 Next == /\ i <= Len(Trace)
         /\ LET v == Verdict(Trace[i]) IN PrintT(<<"V", Trace[i].case, v[1], v[2], v[3], v[4]>>)
